@@ -356,7 +356,7 @@ def random_cases(rng, count, maxlen):
 
 
 # ------------------------------------------------------------------ running
-def run_harness(exe, lines, timeout=900):
+def run_harness(exe, lines, timeout=1500):
     """line-protocol harness; when it dies on a line (sanitizer abort, the
     harness's own alarm on a run-away loop) mark the line CRASH and restart"""
     out = [None] * len(lines)
@@ -365,6 +365,7 @@ def run_harness(exe, lines, timeout=900):
     env = vv.san_env()
     restarts = 0
     leak_restarts = 0
+    timeouts = 0
     while start < len(lines):
         try:
             p = subprocess.run([exe], input="\n".join(lines[start:]) + "\n", env=env, timeout=timeout,
@@ -377,6 +378,12 @@ def run_harness(exe, lines, timeout=900):
         n = min(len(got), len(lines) - start)
         for i in range(n):
             out[start + i] = got[i]
+        if rc == 124 and timeouts < 4:
+            # wall-clock timeout of this python-side run (loaded machine): not a
+            # verdict about any case -- go on with the unanswered lines
+            timeouts += 1
+            start += n
+            continue
         if rc == 77 and n > 0 and start + n < len(lines):
             # the harness leaves after a case that leaked (its line is complete):
             # the next case starts in a fresh process
